@@ -5,11 +5,11 @@ use crate::rng::derive;
 
 pub fn load_corpus(path: &str) -> Vec<Project> {
     let s = std::fs::read_to_string(path).unwrap_or_else(|e| {
-        eprintln!("HARNESS-ERROR: cannot read corpus {}: {}", path, e);
+        println!("HARNESS-ERROR: cannot read corpus {}: {}", path, e);
         std::process::exit(2)
     });
     serde_json::from_str(&s).unwrap_or_else(|e| {
-        eprintln!("HARNESS-ERROR: cannot parse corpus {}: {}", path, e);
+        println!("HARNESS-ERROR: cannot parse corpus {}: {}", path, e);
         std::process::exit(2)
     })
 }
@@ -55,7 +55,7 @@ pub fn plan(corpus: &[Project], property: &str, tier: &str, root: u64, index: u6
         }
         "C10" => gen::generate_c10(corpus, seed, index, c10_k(tier)),
         _ => {
-            eprintln!("HARNESS-ERROR: unknown ssim property {}", property);
+            println!("HARNESS-ERROR: unknown ssim property {}", property);
             std::process::exit(2)
         }
     };
